@@ -17,7 +17,7 @@ FORMULAS = {
     "C08": {"inv": ["C08Range", "C08Done"], "props": ["C08"], "mc_props": ["C08"],
             "mc_inv": ["C08Range", "C08Done"]},
     "C18": {"inv": ["C18Finish"], "props": ["C18"], "mc_props": ["C18"], "mc_inv": ["C18Finish"]},
-    "C19": {"inv": ["C19Cap"], "props": ["C19"], "mc_props": ["C19"], "mc_inv": ["C19Cap"]},
+    "C19": {"inv": ["C19Cap", "C19Rel"], "props": ["C19"], "mc_props": ["C19"], "mc_inv": ["C19Cap"]},
     "C20": {"inv": ["C20NoPanic", "C20Work"], "props": ["C20Conv", "C20Prefix"],
             "mc_props": ["C20Conv", "C20Terminates"], "mc_inv": ["C20NoPanic", "C20Work"]},
 }
